@@ -12,7 +12,9 @@ import (
 	"testing"
 	"time"
 
+	"github.com/ChainSafe/gossamer/dot/network"
 	"github.com/ChainSafe/gossamer/dot/network/messages"
+	"github.com/ChainSafe/gossamer/dot/peerset"
 	"github.com/ChainSafe/gossamer/dot/state"
 	"github.com/ChainSafe/gossamer/dot/types"
 	"github.com/ChainSafe/gossamer/internal/database"
@@ -24,20 +26,24 @@ import (
 // Serving side of C31: the REAL SyncService.CreateBlockResponse over the REAL
 // state.BlockState (in-memory pebble + block tree) holding a generated tree with forks.
 //
-// line:   `srv <tree> <fin> <from> <dir> <max> <mask>`
+// line:   `srv <tree> <fin> <from> <dir> <max> <mask>`            one request to a fresh service
+//         `seq <tree> <fin>|<peer> <from> <dir> <max> <mask>;...` requests to ONE service (limiter)
 //   tree  `p:k,p:k,...`  segments: k blocks chained below the block with id p. Ids are given in
 //         insertion order, genesis = 0, so `0:5,2:3` is a main chain 1..5 and a fork 6,7,8 on block 2
-//   fin   number of the block of the best chain that is finalised after the tree is built (0 = none:
-//         everything stays in the in-memory block tree). Blocks up to `fin` then live in the database
-//         only. `bad-tree` unless fin <= best number and no other block has a number <= fin (so
-//         finalisation prunes nothing; pruning is the business of C15/C17)
+//   fin   number of the block of the best chain that is finalised (SetFinalisedHash) after the tree is
+//         built; 0 = none. Blocks up to `fin` then live in the database only, forks that do not
+//         contain that block are pruned, and the stored body of every finalised block with
+//         id%7 == 3 is deleted from the database. `bad-tree` if fin > best number
 //   from  `n<number>` or `h<id>` (an id that is not in the tree is an unknown hash)
 //   dir   `a` ascending, `d` descending, `x` invalid (3)
 //   max   `nil` or a uint32
 //   mask  RequestedData byte
+//   peer  0..9
 // output: `ok <n> <id>/<present>,...`  present = bit mask of the non-nil fields (1 header, 2 body,
 //         4 receipt, 8 message queue, 16 justification), `!` appended when a field's content is not
-//         that block's; or an error class.
+//         that block's; or an error class. `seq`: per request `same` (refused and the peer reported
+//         once with SameBlockSyncRequest) or the short form `ok <n> <first>..<last>` / error class,
+//         joined by `;`.
 
 type c31NoTelemetry struct{}
 
@@ -47,8 +53,25 @@ type c31Env struct {
 	bs     *state.BlockState
 	hashes []common.Hash // by id
 	nums   []uint
+	parent []int
 	ids    map[common.Hash]int
 }
+
+// c31Net records the peer reports of the limiter.
+type c31Net struct {
+	reports []string
+}
+
+func (n *c31Net) AllConnectedPeersIDs() []peer.ID { return nil }
+func (n *c31Net) ReportPeer(change peerset.ReputationChange, p peer.ID) {
+	ok := change.Value == peerset.SameBlockSyncRequest && change.Reason == peerset.SameBlockSyncRequestReason
+	n.reports = append(n.reports, fmt.Sprintf("%s/%v", string(p), ok))
+}
+func (n *c31Net) BlockAnnounceHandshake(*types.Header) error { return nil }
+func (n *c31Net) GetRequestResponseProtocol(string, time.Duration, uint64) *network.RequestResponseProtocol {
+	return nil
+}
+func (n *c31Net) GossipMessageExcluding(network.NotificationsMessage, peer.ID) {}
 
 var c31Cache = map[string]*c31Env{}
 
@@ -111,12 +134,13 @@ func c31Build(tree string, fin int) (*c31Env, string) {
 		return nil, "setup-err"
 	}
 	env := &c31Env{bs: bs, ids: map[common.Hash]int{}}
-	add := func(h common.Hash, n uint) {
+	add := func(h common.Hash, n uint, parent int) {
 		env.ids[h] = len(env.hashes)
 		env.hashes = append(env.hashes, h)
 		env.nums = append(env.nums, n)
+		env.parent = append(env.parent, parent)
 	}
-	add(genesis.Hash(), 0)
+	add(genesis.Hash(), 0, 0)
 	base := time.Unix(1_700_000_000, 0)
 	for _, sg := range segs {
 		p, k := sg[0], sg[1]
@@ -133,7 +157,7 @@ func c31Build(tree string, fin int) (*c31Env, string) {
 				return nil, "setup-err"
 			}
 			h := hdr.Hash()
-			add(h, hdr.Number)
+			add(h, hdr.Number, p)
 			p = id
 		}
 	}
@@ -167,21 +191,25 @@ func c31Build(tree string, fin int) (*c31Env, string) {
 		return nil, "bad-tree"
 	}
 	if fin > 0 {
-		perNumber := make([]int, deepest+1)
-		for _, n := range env.nums {
-			perNumber[n]++
-		}
-		for k := 0; k <= fin; k++ {
-			if perNumber[k] != 1 {
-				return nil, "bad-tree"
-			}
-		}
 		h, err := bs.GetHashByNumber(uint(fin))
 		if err != nil {
 			return nil, "setup-err"
 		}
 		if err := bs.SetFinalisedHash(h, 1, 1); err != nil {
 			return nil, "setup-err"
+		}
+		// a finalised block whose body is missing from the database
+		for id := env.ids[h]; id != 0; id = env.parent[id] {
+			if id%7 != 3 {
+				continue
+			}
+			key := append([]byte("blockblb"), env.hashes[id].ToBytes()...)
+			if err := db.Del(key); err != nil {
+				return nil, "setup-err"
+			}
+			if _, err := bs.GetBlockBody(env.hashes[id]); err == nil {
+				return nil, "setup-err" // the key layout of dot/state changed
+			}
 		}
 	}
 	if len(c31Cache) >= 6 {
@@ -218,38 +246,34 @@ func c31ErrClass(err error) string {
 	return "err"
 }
 
-func c31Run(line string) string {
-	f := strings.Fields(line)
-	if len(f) == 2 && f[0] == "const" && f[1] == "MaxBlocksInResponse" {
-		return fmt.Sprint(messages.MaxBlocksInResponse)
+// c31ParseReq parses `<from> <dir> <max> <mask>`; a by-hash start is returned as an id.
+func c31ParseReq(f []string) (req *messages.BlockRequestMessage, hashID int, ok bool) {
+	if len(f) != 4 || len(f[0]) < 2 {
+		return nil, 0, false
 	}
-	if len(f) != 7 || f[0] != "srv" {
-		return "bad-op"
+	mask, err := strconv.ParseUint(f[3], 10, 8)
+	if err != nil {
+		return nil, 0, false
 	}
-	fin, e1 := strconv.Atoi(f[2])
-	mask, e2 := strconv.ParseUint(f[6], 10, 8)
-	if e1 != nil || e2 != nil || fin < 0 || len(f[3]) < 2 {
-		return "bad-op"
-	}
-	req := &messages.BlockRequestMessage{RequestedData: byte(mask)}
-	hashID := -1
-	switch f[3][0] {
+	req = &messages.BlockRequestMessage{RequestedData: byte(mask)}
+	hashID = -1
+	switch f[0][0] {
 	case 'n':
-		n, err := strconv.ParseUint(f[3][1:], 10, 64)
+		n, err := strconv.ParseUint(f[0][1:], 10, 64)
 		if err != nil {
-			return "bad-op"
+			return nil, 0, false
 		}
 		req.StartingBlock = *messages.NewFromBlock(uint(n))
 	case 'h':
-		id, err := strconv.Atoi(f[3][1:])
+		id, err := strconv.Atoi(f[0][1:])
 		if err != nil || id < 0 {
-			return "bad-op"
+			return nil, 0, false
 		}
 		hashID = id
 	default:
-		return "bad-op"
+		return nil, 0, false
 	}
-	switch f[4] {
+	switch f[1] {
 	case "a":
 		req.Direction = messages.Ascending
 	case "d":
@@ -257,31 +281,34 @@ func c31Run(line string) string {
 	case "x":
 		req.Direction = messages.SyncDirection(3)
 	default:
-		return "bad-op"
+		return nil, 0, false
 	}
-	if f[5] != "nil" {
-		m, err := strconv.ParseUint(f[5], 10, 32)
+	if f[2] != "nil" {
+		m, err := strconv.ParseUint(f[2], 10, 32)
 		if err != nil {
-			return "bad-op"
+			return nil, 0, false
 		}
 		m32 := uint32(m)
 		req.Max = &m32
 	}
-	env, bad := c31Build(f[1], fin)
-	if env == nil {
-		return bad
+	return req, hashID, true
+}
+
+func (env *c31Env) setHash(req *messages.BlockRequestMessage, hashID int) {
+	if hashID < 0 {
+		return
 	}
-	if hashID >= 0 {
-		var h common.Hash
-		if hashID < len(env.hashes) {
-			h = env.hashes[hashID]
-		} else {
-			copy(h[:], c31IDBytes(0x77, hashID))
-		}
-		req.StartingBlock = *messages.NewFromBlock(h)
+	var h common.Hash
+	if hashID < len(env.hashes) {
+		h = env.hashes[hashID]
+	} else {
+		copy(h[:], c31IDBytes(0x77, hashID))
 	}
-	svc := NewSyncService(WithBlockState(env.bs))
-	resp, err := svc.CreateBlockResponse(peer.ID("alice"), req)
+	req.StartingBlock = *messages.NewFromBlock(h)
+}
+
+// show prints a response; short = first and last entry only.
+func (env *c31Env) show(resp *messages.BlockResponseMessage, err error, short bool) string {
 	if err != nil {
 		return c31ErrClass(err)
 	}
@@ -291,19 +318,16 @@ func c31Run(line string) string {
 	if len(resp.BlockData) == 0 {
 		return "ok 0"
 	}
-	var sb strings.Builder
-	fmt.Fprintf(&sb, "ok %d ", len(resp.BlockData))
+	entries := make([]string, len(resp.BlockData))
+	anyWrong := false
 	for i, bd := range resp.BlockData {
-		if i > 0 {
-			sb.WriteByte(',')
-		}
 		if bd == nil {
-			sb.WriteString("nil")
+			entries[i] = "nil"
 			continue
 		}
 		id, known := env.ids[bd.Hash]
 		if !known {
-			sb.WriteString("?")
+			entries[i] = "?"
 			continue
 		}
 		present, wrong := 0, false
@@ -332,12 +356,122 @@ func c31Run(line string) string {
 			present |= 16
 			wrong = wrong || string(*bd.Justification) != string(c31IDBytes(0xe0, id))
 		}
-		fmt.Fprintf(&sb, "%d/%d", id, present)
+		entries[i] = fmt.Sprintf("%d/%d", id, present)
 		if wrong {
-			sb.WriteByte('!')
+			entries[i] += "!"
+			anyWrong = true
 		}
 	}
-	return sb.String()
+	n := len(entries)
+	if short {
+		out := fmt.Sprintf("ok %d %s", n, entries[0])
+		if n > 1 {
+			out += ".." + entries[n-1]
+		}
+		if anyWrong {
+			out += "!"
+		}
+		return out
+	}
+	return fmt.Sprintf("ok %d %s", n, strings.Join(entries, ","))
+}
+
+func c31Run(line string) string {
+	if strings.HasPrefix(line, "seq ") {
+		return c31RunSeq(line)
+	}
+	f := strings.Fields(line)
+	if len(f) == 2 && f[0] == "const" {
+		switch f[1] {
+		case "MaxBlocksInResponse":
+			return fmt.Sprint(messages.MaxBlocksInResponse)
+		case "maxNumberOfSameRequestPerPeer":
+			return fmt.Sprint(maxNumberOfSameRequestPerPeer)
+		}
+		return "bad-op"
+	}
+	if len(f) != 7 || f[0] != "srv" {
+		return "bad-op"
+	}
+	fin, e1 := strconv.Atoi(f[2])
+	req, hashID, ok := c31ParseReq(f[3:])
+	if e1 != nil || fin < 0 || !ok {
+		return "bad-op"
+	}
+	env, bad := c31Build(f[1], fin)
+	if env == nil {
+		return bad
+	}
+	env.setHash(req, hashID)
+	svc := NewSyncService(WithBlockState(env.bs))
+	svc.network = &c31Net{}
+	resp, err := svc.CreateBlockResponse(peer.ID("alice"), req)
+	return env.show(resp, err, false)
+}
+
+// c31RunSeq sends every request of the line to one service.
+func c31RunSeq(line string) string {
+	bar := strings.IndexByte(line, '|')
+	if bar < 0 {
+		return "bad-op"
+	}
+	hf := strings.Fields(line[:bar])
+	if len(hf) != 3 {
+		return "bad-op"
+	}
+	fin, e1 := strconv.Atoi(hf[2])
+	if e1 != nil || fin < 0 {
+		return "bad-op"
+	}
+	type op struct {
+		peer   int
+		req    *messages.BlockRequestMessage
+		hashID int
+	}
+	var ops []op
+	if strings.TrimSpace(line[bar+1:]) != "" {
+		for _, o := range strings.Split(line[bar+1:], ";") {
+			f := strings.Fields(o)
+			if len(f) != 5 {
+				return "bad-op"
+			}
+			p, err := strconv.Atoi(f[0])
+			req, hashID, ok := c31ParseReq(f[1:])
+			if err != nil || p < 0 || p > 9 || !ok {
+				return "bad-op"
+			}
+			ops = append(ops, op{p, req, hashID})
+		}
+	}
+	env, bad := c31Build(hf[1], fin)
+	if env == nil {
+		return bad
+	}
+	net := &c31Net{}
+	svc := NewSyncService(WithBlockState(env.bs))
+	svc.network = net
+	if len(ops) == 0 {
+		return "-"
+	}
+	outs := make([]string, len(ops))
+	for i, o := range ops {
+		env.setHash(o.req, o.hashID)
+		pid := peer.ID(fmt.Sprintf("peer%d", o.peer))
+		net.reports = net.reports[:0]
+		resp, err := svc.CreateBlockResponse(pid, o.req)
+		if err != nil && errors.Is(err, errMaxNumberOfSameRequest) {
+			outs[i] = "same"
+			if len(net.reports) != 1 || net.reports[0] != string(pid)+"/true" {
+				outs[i] = "same!" + strings.Join(net.reports, ",")
+			}
+			continue
+		}
+		outs[i] = env.show(resp, err, true)
+		if len(net.reports) != 0 {
+			outs[i] += "!reported"
+		}
+	}
+	return strings.Join(outs, ";")
 }
 
 // ---- generator -------------------------------------------------------------------------------
@@ -346,6 +480,9 @@ func c31Run(line string) string {
 type c31Shape struct {
 	line   string
 	fin    int
+	chain  []int  // id of the best chain's block at every number
+	alive  []bool // not pruned by the finalisation
+	dead   []int
 	nums   []int
 	parent []int
 	tips   []int // last id of every segment
@@ -437,11 +574,26 @@ func c31GenTree(r *vhRng) *c31Shape {
 	}
 	if _, cnt := s.deepest(); cnt != 1 && len(s.nums) > 1 {
 		// cannot happen by construction; fall back to a plain chain
-		return &c31Shape{line: "0:7", nums: []int{0, 1, 2, 3, 4, 5, 6, 7}, parent: []int{0, 0, 1, 2, 3, 4, 5, 6}, tips: []int{7}}
+		s = &c31Shape{line: "0:7", nums: []int{0, 1, 2, 3, 4, 5, 6, 7}, parent: []int{0, 0, 1, 2, 3, 4, 5, 6}, tips: []int{7}}
 	}
-	// finalised prefix: up to the first number that two blocks share (nothing is pruned then)
-	if r.Chance(2, 5) {
-		d, _ := s.deepest()
+	// the chain of the best (deepest) block
+	tip := 0
+	for id, n := range s.nums {
+		if n > s.nums[tip] {
+			tip = id
+		}
+	}
+	s.chain = make([]int, s.nums[tip]+1)
+	for id := tip; ; id = s.parent[id] {
+		s.chain[s.nums[id]] = id
+		if id == 0 {
+			break
+		}
+	}
+	// finalised head: none, below the first fork (nothing pruned), at/around a fork point of the
+	// best chain (forks pruned), near the tip
+	if len(s.nums) > 1 && r.Chance(1, 2) {
+		d := s.nums[tip]
 		per := make([]int, d+1)
 		for _, n := range s.nums {
 			per[n]++
@@ -450,18 +602,41 @@ func c31GenTree(r *vhRng) *c31Shape {
 		for lim+1 <= d && per[lim+1] == 1 {
 			lim++
 		}
-		switch r.Intn(4) {
+		switch r.Intn(8) {
 		case 0:
-			s.fin = lim
-		case 1:
 			s.fin = lim - r.Intn(3)
-		case 2:
+		case 1:
 			s.fin = 1 + r.Intn(3)
+		case 2, 3: // around a fork point
+			if len(s.roots) > 0 {
+				s.fin = s.nums[s.roots[r.Intn(len(s.roots))]] + r.Intn(4) - 1
+			} else {
+				s.fin = r.Intn(d + 1)
+			}
+		case 4:
+			s.fin = d - r.Intn(3)
+		case 5:
+			s.fin = r.Pick(126, 127, 128, 129, 130)
 		default:
-			s.fin = r.Intn(lim + 1)
+			s.fin = r.Intn(d + 1)
 		}
-		if s.fin < 0 || s.fin > lim {
-			s.fin = lim
+		if s.fin < 0 {
+			s.fin = 0
+		}
+		if s.fin > d {
+			s.fin = d
+		}
+	}
+	// which blocks survive the finalisation
+	s.alive = make([]bool, len(s.nums))
+	for id := range s.nums {
+		x := id
+		for s.nums[x] > s.fin {
+			x = s.parent[x]
+		}
+		s.alive[id] = s.chain[s.nums[x]] == x && (s.nums[id] >= s.fin || s.chain[s.nums[id]] == id)
+		if !s.alive[id] {
+			s.dead = append(s.dead, id)
 		}
 	}
 	return s
@@ -472,9 +647,69 @@ var (
 	c31CurLeft  int
 )
 
+// c31GenSeq draws a request sequence for one service: the same request repeated around the limit
+// (one or several peers, requests whose encodings collide), and runs of distinct filler requests
+// around the capacity of the seen-requests LRU between two repetitions.
+func c31GenSeq(r *vhRng) string {
+	tree := []string{"0:3", "0:5,2:2", "-", "0:6,1:3", "0:4,0:2"}[r.Intn(5)]
+	fin := r.Pick(0, 0, 0, 1, 2)
+	if tree == "-" {
+		fin = 0
+	}
+	reqs := []string{"n1 a nil 1", "n1 a 0 1", "n1 a 2 1", "n1 d nil 1", "n1 a nil 3", "h1 a nil 1", "h2 d 2 19",
+		"n2 a nil 1", "n0 a nil 1", "n9 a nil 1", "h99 a nil 1", "n1 x nil 1", "n1 a nil 0",
+		"n4294967295 a nil 1", "n4294967296 a nil 1", "n4294967294 a nil 1", "h0 a 1 31", "h6 d nil 1"}
+	var ops []string
+	add := func(p int, q string) { ops = append(ops, fmt.Sprintf("%d %s", p, q)) }
+	filler := 0
+	fill := func(p, k int) {
+		for i := 0; i < k; i++ {
+			filler++
+			add(p, fmt.Sprintf("n%d a nil 1", 1000+filler))
+		}
+	}
+	switch r.Intn(5) {
+	case 0, 1: // few requests, few peers, many repetitions
+		nr, np := 1+r.Intn(4), 1+r.Intn(3)
+		base := r.Intn(len(reqs))
+		for i, n := 0, 6+r.Intn(30); i < n; i++ {
+			add(r.Intn(np), reqs[(base+r.Intn(nr))%len(reqs)])
+		}
+	case 2, 3: // eviction: X served a times, k distinct requests, X again (b times)
+		x := reqs[r.Intn(len(reqs))]
+		p := r.Intn(3)
+		for i, a := 0, r.Pick(1, 2, 2, 3); i < a; i++ {
+			add(p, x)
+		}
+		fill(r.Intn(3), r.Pick(97, 98, 99, 99, 100, 100, 101, 102))
+		for i, b := 0, r.Pick(1, 2, 3, 4); i < b; i++ {
+			add(p, x)
+		}
+		if r.Bool() { // and once more: touched entries are the most recent ones
+			fill(r.Intn(3), r.Pick(98, 99, 100))
+			add(p, x)
+		}
+	default: // refreshed by use: X, some fillers, X (refused or served: moved to the front), fillers, X
+		x := reqs[r.Intn(len(reqs))]
+		p := r.Intn(3)
+		for i, a := 0, r.Pick(1, 2, 3); i < a; i++ {
+			add(p, x)
+		}
+		fill(p, r.Pick(40, 60, 99))
+		add(p, x)
+		fill(p, r.Pick(40, 60, 99, 100))
+		add(p, x)
+		add(p, x)
+	}
+	return fmt.Sprintf("seq %s %d|%s", tree, fin, strings.Join(ops, ";"))
+}
+
 func c31Gen(r *vhRng) string {
 	if r.Chance(1, 500) {
-		return "const MaxBlocksInResponse"
+		return "const " + []string{"MaxBlocksInResponse", "maxNumberOfSameRequestPerPeer"}[r.Intn(2)]
+	}
+	if r.Chance(1, 25) {
+		return c31GenSeq(r)
 	}
 	if c31CurShape == nil || c31CurLeft <= 0 {
 		c31CurShape = c31GenTree(r)
@@ -542,7 +777,22 @@ func c31Gen(r *vhRng) string {
 		}
 	} else {
 		var id int
-		switch r.Intn(9) {
+		switch r.Intn(12) {
+		case 9: // a pruned block
+			if len(s.dead) > 0 {
+				id = s.dead[r.Intn(len(s.dead))]
+			} else {
+				id = r.Intn(n)
+			}
+		case 10, 11: // a block of the best chain around the finalised head / a window away from it
+			v := s.fin + r.Pick(-1, 0, 1, 2, maxV-1, maxV, maxV+1, -maxV, 1-maxV, -1-maxV, -2)
+			if v < 0 {
+				v = 0
+			}
+			if v >= len(s.chain) {
+				v = len(s.chain) - 1
+			}
+			id = s.chain[v]
 		case 0:
 			id = 0
 		case 1:
